@@ -484,6 +484,30 @@ def sweep(ctx: Ctx):
 GENERIC_FILES = ['permuta/bisc/bisc.py', 'permuta/permutils/pin_words.py', 'permuta/bisc/perm_properties.py']
 
 
+def _add_lru(fname: str):
+    def edit(tree: ast.Module) -> None:
+        tree.body.insert(0, ast.parse("import functools").body[0])
+        for n in ast.walk(tree):
+            if isinstance(n, ast.FunctionDef) and n.name == fname:
+                n.decorator_list.append(ast.parse("functools.lru_cache(maxsize=None)", mode="eval").body)
+                return
+        from ..selftest import Skip
+
+        raise Skip(fname)
+
+    return edit
+
+
+def _drop_lru(fname: str):
+    def edit(tree: ast.Module) -> None:
+        for n in ast.walk(tree):
+            if isinstance(n, ast.FunctionDef) and n.name == fname:
+                n.decorator_list = [d for d in n.decorator_list if "cache" not in ast.unparse(d)]
+                return
+
+    return edit
+
+
 def variants():
     from ..selftest import generic_silent
 
@@ -491,7 +515,7 @@ def variants():
 
 
 def _variants():
-    from ..selftest import V, insert_stmt, reformat_only, rename_local, replace_expr, replace_stmt
+    from ..selftest import V, custom, insert_stmt, reformat_only, rename_local, replace_expr, replace_stmt
 
     BI, PW = "permuta/bisc/bisc.py", "permuta/permutils/pin_words.py"
     return [
@@ -516,8 +540,69 @@ def _variants():
         V("eval-without-import", replace_stmt(PW, None, "from automata.fa.dfa import DFA", "import automata.fa.dfa"), "fire", "C20-W2"),
         # silent
         V("reformat-bisc", reformat_only(BI), "silent"),
-        V("store-without-early-return", replace_stmt(PW, "PinWords.store_dfa_for_perm", "if path.is_file(): ...", ""), "silent", note="write-once is not required: a truncating rewrite keeps the file a function of the permutation"),
+        V("store-without-early-return", replace_stmt(PW, "PinWords.store_dfa_for_perm", "if path.is_file(): ...", ""), "silent", note="write-once is not required: a truncating rewrite keeps the entry a function of the permutation, and an earlier (memoised) load is language-equivalent to a later one"),
+        V("bisc-reader-memoised", custom(BI, _add_lru("read_bisc_file")), "fire", "C20-M1"),
         V("writer-wt-mode", replace_expr(BI, "write_json_to_file", "open(file_name, 'w')", "open(file_name, mode='wt')"), "silent"),
         V("reader-default-mode", replace_expr(BI, "read_bisc_file", "open(f'{path}.json', 'r')", "open(f'{path}.json')"), "silent"),
         V("rename-handle", rename_local(BI, "write_json_to_file", "f", "handle"), "silent"),
     ]
+
+
+# ------------------------------------------------------------------ M1: memoised readers
+
+
+def rule_m1(ctx: Ctx, sites: List[OpenSite]) -> None:
+    """A function that reads a file may be memoised only if the file can never change once it exists
+    (every writer of that file skips when it is present); otherwise a read after a later write returns
+    the earlier contents."""
+    repo = ctx.repo
+    n = 0
+    for s in sites:
+        if not reads_through(s):
+            continue
+        n += 1
+        # memo on the reading function itself or on a function it is (exactly) called from inside the package
+        memo = [d for d in s.fi.decorators if "cache" in d.lower() or "memo" in d.lower()]
+        if not memo:
+            ctx.ok("C20-M1", s.fi.where, "reader is not memoised: every read goes to the file", s.call, s.fi)
+            continue
+        # the writers of the same path expression
+        peers = [w for w in sites if writes_through(w) and w.fi.module is s.fi.module and w.fi.cls is s.fi.cls]
+        write_once = bool(peers) and all(_skips_when_present(w) for w in peers)
+        keyed = all(kind == "repr" for w in peers for (_c, kind, _p) in writes_through(w)) and bool(peers)
+        if keyed and not write_once:
+            # contract of the automaton database: an entry is (language-equivalent to) a function of its key, so an
+            # earlier load is as good as a later one (C20-D1 checks the default and the keying)
+            ctx.ok("C20-M1", s.fi.where, f"memoised reader ({memo[0]}) of a keyed database whose entries are a function of the key: an earlier load is equivalent to a later one", s.call, s.fi)
+            continue
+        if write_once:
+            ctx.ok("C20-M1", s.fi.where, f"memoised reader ({memo[0]}), but its writer never changes an existing file (write-once): the memo cannot go stale", s.call, s.fi)
+        else:
+            ctx.violation("C20-M1", s.fi, s.fi.node, f"{s.fi.qual} is memoised ({memo[0]}) although the file it reads can be rewritten: after a later write (or a first read that found the file missing) it keeps returning the earlier result")
+    if n == 0:
+        raise AnalysisError("no reader found")
+
+
+def _skips_when_present(w: OpenSite) -> bool:
+    """`if <path>.is_file(): return` (or os.path.exists) dominates the open() of the writer."""
+    fi = w.fi
+    if w.with_node not in fi.body:
+        return False
+    pos = fi.body.index(w.with_node)
+    for st in fi.body[:pos]:
+        if isinstance(st, ast.If) and len(st.body) == 1 and isinstance(st.body[0], ast.Return) and st.body[0].value is None and not st.orelse:
+            t = unparse(st.test)
+            if t.endswith(".is_file()") or t.endswith(".exists()") or t.startswith("os.path.exists(") or t.startswith("os.path.isfile("):
+                return True
+    return False
+
+
+_OLD_RUN = run
+
+
+def run(ctx: Ctx) -> None:  # noqa: F811
+    _OLD_RUN(ctx)
+    ctx.run(rule_m1, ctx, open_sites(ctx.repo))
+
+
+FLOORS["C20-M1"] = 2
